@@ -203,6 +203,12 @@ VARIANTS = [
     V("twin: interpolation writes into a copying cast of its operand", ("C18",), "", "aggregate_flox.py", '    if out is None:\n        out = np.empty_like(a, dtype=dtype)\n    with np.errstate(invalid="ignore"):\n        diff_b_a = np.subtract(b, a)\n', '    with np.errstate(invalid="ignore"):\n        diff_b_a = np.subtract(b, a)\n    if out is None:\n        out = diff_b_a.astype(dtype, copy=True)\n', expect="silent"),
     V("grouper transposed with an inline inverse permutation", ("C07", "C08"), "R-PAIRS[transpose]", "xarray.py", '        order = [dims.index(d) for d in core_dims[0] if d in dims]\n        array = array.transpose(*order)', '        target = [d for d in core_dims[0] if d in dims]\n        array = array.transpose(*(target.index(d) for d in dims))', must_mention="inverse"),
     V("twin: forward permutation written inline", ("C07", "C08"), "", "xarray.py", '        order = [dims.index(d) for d in core_dims[0] if d in dims]\n        array = array.transpose(*order)', '        array = array.transpose(*[dims.index(d) for d in core_dims[0] if d in dims])', expect="silent"),
+    V("all-missing arm allocates without the new dimensions", ("C18", "C11"), "R-ARITY", "core.py", '            result = np.full(shape=new_dims_shape + final_array_shape, fill_value=fv)', '            result = np.full(shape=final_array_shape, fill_value=fv)', must_mention="q axis"),
+    V("twin: all-missing arm builds its shape in a local", ("C18", "C11"), "", "core.py", '            result = np.full(shape=new_dims_shape + final_array_shape, fill_value=fv)', '            result = np.full(shape=(*new_dims_shape, *final_array_shape), fill_value=fv)', expect="silent"),
+    V("singleton reduced axes addressed by absolute position on every intermediate", ("C18", "C11"), "R-ARITY", "core.py", '        squeeze_ax = tuple(ax for ax in range(v.ndim - nax, v.ndim - 1) if v.shape[ax] == 1)', '        squeeze_ax = tuple(ax for ax in sorted(axis)[:-1] if v.shape[ax] == 1)', must_mention="counter"),
+    V("groups without a valid member no longer masked in the quantile kernel", ("C18", "C01"), "R-NOVALID", "aggregate_flox.py", '    novalid = actual_sizes < 0\n    if np.any(novalid):\n        result[..., novalid] = np.nan\n', '', must_mention="neighbour"),
+    V("groups without a valid member masked only when NaN is not skipped", ("C18", "C01"), "R-NOVALID", "aggregate_flox.py", '    novalid = actual_sizes < 0\n    if np.any(novalid):\n', '    novalid = actual_sizes < 0\n    if not skipna and np.any(novalid):\n', must_mention="neighbour"),
+    V("twin: no-valid mask applied without the any() shortcut", ("C18", "C01"), "", "aggregate_flox.py", '    novalid = actual_sizes < 0\n    if np.any(novalid):\n        result[..., novalid] = np.nan\n', '    result[..., actual_sizes < 0] = np.nan\n', expect="silent"),
     V("dtype promotion memoised with an untyped key", ("C14",), "R-MEMO", "xrdtypes.py", '        dtype = np.result_type(dtype, fill_value)\n    return dtype\n',
       '        dtype = _promote_for_fill_value(dtype, fill_value)\n    return dtype\n\n\n@functools.lru_cache\ndef _promote_for_fill_value(dtype: np.dtype, fill_value) -> np.dtype:\n    return np.result_type(dtype, fill_value)\n', must_mention="typed"),
     V("twin: dtype promotion memoised with typed=True", ("C14",), "", "xrdtypes.py", '        dtype = np.result_type(dtype, fill_value)\n    return dtype\n',
